@@ -751,7 +751,10 @@ func (fr *Frame) execBuiltin(bi *ssa.Builtin, c *ssa.CallCommon, resT types.Type
 		xt := c.Args[0].Type()
 		switch u := xt.Underlying().(type) {
 		case *types.Basic:
-			return Val{T: resT, Term: fmt.Sprintf("(str.len %s)", vc.term(st, x))}
+			// machine fact: the length of a string is an int
+			ln := fmt.Sprintf("(str.len %s)", vc.term(st, x))
+			vc.fact(fmt.Sprintf("(<= %s 9223372036854775807)", ln))
+			return Val{T: resT, Term: ln}
 		case *types.Slice:
 			return Val{T: resT, Term: vc.sliceLen(vc.S.Sort(xt), vc.term(st, x))}
 		case *types.Map:
